@@ -83,6 +83,8 @@ FLOORS = {
                      "class:splinecv:engine:numpy": 1, "class:splinecv:scoring_with_weights": 2, "class:splinecv:several_mindists": 1,
                      "class:delayed_spelling:bool": 2},
                   **{"class:scoring_spelling:" + k: 4 for k in ("none", "string", "get_scorer", "make_scorer", "plain_callable")},
+                  # train_test_split sizes through **kwargs: neither / test_size / train_size / both, float and int, plain and blocked
+                  **{"class:tts_sizes:%s:%s" % (m, k): 1 for m in ("plain", "blocked") for k in W.SIZE_MODES}, **{"eval:split_sizes": 20},
                   # memory layouts of the 2-D gridded datasets (each array draws its layout independently)
                   **{"class:array_layout:" + k: 12 for k in W.ARRAY_LAYOUTS}, **{"class:score_array_layout:" + k: 6 for k in W.ARRAY_LAYOUTS},
                   **{"class:splinecv:two_dimensional_grid": 2, "class:layout:2d": 24, "class:layout:2d:arrays_in_different_memory_orders": 24, "class:layout:2d:mesh": 8,
@@ -100,6 +102,7 @@ FLOORS = {
     }.items()}, distinct_nontrivial=2860, knn1_cases=120, schedules_with_overlapping_tasks=1880, schedules_completed_out_of_split_order=3600,
         **{"schedule:" + s: 640 for s in W.SCHEDULES},
         **{"eval:score_vs_flat_reference": 960, "eval:cv_sees_rows_in_split_order": 2290},
+        **{"class:tts_sizes:%s:%s" % (m, k): 68 for m in ("plain", "blocked") for k in W.SIZE_MODES}, **{"eval:split_sizes": 800},
         # equivalent spellings and SplineCV option combinations (about 40 percent of the minimum over seeds 10 and 11)
         **{"eval:equivalent_spellings_agree": 580,
            "eval:tts_equivalent_spellings_agree": 960,
@@ -184,7 +187,7 @@ def run_case(run, tap, stream, index, rng):
             elif stream == "score":
                 W.case_score(run, rng, vd)
             elif stream == "tts":
-                W.case_tts(run, rng, vd)
+                W.case_tts(run, rng, vd, index)
             elif stream == "splinecv":
                 W.case_splinecv(run, rng, vd, index=index)
             elif stream == "history":
